@@ -125,6 +125,7 @@ impl Rep<'_> {
 /// Drives one volatile reader and its std twin through `seq`. `state` renders the comparable
 /// stream state (remaining bytes / position).
 fn drive_reader<A: ReadVolatile, B: Read>(rep: &Rep, l: usize, pos: u64, seq: &[Call], a: &mut A, b: &mut B, state: &dyn Fn(&A, &B) -> (String, String)) {
+    crate::crash::beat_label(rep.adapter);
     for (i, c) in seq.iter().enumerate() {
         let mut vbuf = Local::new(c.len, c.mis, &[]);
         let mut pbuf = vec![0xEEu8; c.len];
@@ -137,8 +138,15 @@ fn drive_reader<A: ReadVolatile, B: Read>(rep: &Rep, l: usize, pos: u64, seq: &[
             (vr(a.read_volatile(&mut vs), R::N), sr(b.read(&mut pbuf), R::N))
         };
         rep.ctx.case(c.len > 0);
+        crate::crash::beat();
         if ra != rb {
-            rep.bad("result", l, pos, seq, i, format!("volatile {:?} vs std {:?}", ra, rb));
+            // one specific divergence has its own key (std receives with recv(2), which reports
+            // EAGAIN for an empty buffer on an idle non-blocking socket; read(2) returns 0)
+            let idle_empty = c.len == 0 && matches!(ra, R::N(0) | R::Unit) && rb == R::OtherErr("WouldBlock".into());
+            rep.bad(if idle_empty { "result/empty-buffer-on-an-idle-non-blocking-socket" } else { "result" }, l, pos, seq, i, format!("volatile {:?} vs std {:?}", ra, rb));
+            if idle_empty {
+                continue;
+            }
             return;
         }
         if !vbuf.canaries_ok() {
@@ -163,6 +171,7 @@ fn drive_reader<A: ReadVolatile, B: Read>(rep: &Rep, l: usize, pos: u64, seq: &[
 }
 
 fn drive_writer<A: WriteVolatile, B: Write>(rep: &Rep, l: usize, pos: u64, seq: &[Call], a: &mut A, b: &mut B, state: &dyn Fn(&A, &B) -> (String, String)) {
+    crate::crash::beat_label(rep.adapter);
     for (i, c) in seq.iter().enumerate() {
         let data: Vec<u8> = (0..c.len).map(|j| 0x80u8.wrapping_add((i * 32 + j + (j >> 8) * 7) as u8)).collect();
         let mut vbuf = Local::new(c.len, c.mis, &data);
@@ -175,6 +184,7 @@ fn drive_writer<A: WriteVolatile, B: Write>(rep: &Rep, l: usize, pos: u64, seq: 
             (vr(a.write_volatile(&vs), R::N), sr(b.write(&data), R::N))
         };
         rep.ctx.case(c.len > 0);
+        crate::crash::beat();
         if ra != rb {
             rep.bad("result", l, pos, seq, i, format!("volatile {:?} vs std {:?}", ra, rb));
             return;
@@ -450,6 +460,46 @@ fn fd_adapters(ctx: &Ctx, thorough: bool) -> Vec<String> {
             }
         }
     }
+    // non-blocking stream sockets that cannot make progress: std reports WouldBlock (after the
+    // partial transfer in the exact forms); an adapter that retries it never returns
+    for l in [0usize, 4, 9] {
+        use std::os::unix::net::UnixStream;
+        let data = content(l);
+        for seq in &seqs {
+            {
+                let rep = Rep { ctx, adapter: "UnixStream(read, non-blocking, peer still open)" };
+                let (mut wa, mut a) = UnixStream::pair().unwrap();
+                let (mut wb, mut b) = UnixStream::pair().unwrap();
+                wa.write_all(&data).unwrap();
+                wb.write_all(&data).unwrap();
+                a.set_nonblocking(true).unwrap();
+                b.set_nonblocking(true).unwrap();
+                drive_reader(&rep, l, 0, seq, &mut a, &mut b, &|_, _| (String::new(), String::new()));
+                drop(wa);
+                drop(wb);
+                let (mut r1, mut r2) = (Vec::new(), Vec::new());
+                let _ = a.read_to_end(&mut r1);
+                let _ = b.read_to_end(&mut r2);
+                if r1 != r2 {
+                    rep.bad("stream-state", l, 0, seq, seq.len(), format!("left in the socket: {} vs {}", hex(&r1), hex(&r2)));
+                }
+            }
+            if l == 0 {
+                let rep = Rep { ctx, adapter: "UnixStream(write, non-blocking, send buffer full)" };
+                let (mut a, ra) = UnixStream::pair().unwrap();
+                let (mut b, rb) = UnixStream::pair().unwrap();
+                a.set_nonblocking(true).unwrap();
+                b.set_nonblocking(true).unwrap();
+                let fill = [0x5au8; 4096];
+                for s in [&mut a, &mut b] {
+                    while s.write(&fill).is_ok() {}
+                }
+                drive_writer(&rep, l, 0, seq, &mut a, &mut b, &|_, _| (String::new(), String::new()));
+                drop(ra);
+                drop(rb);
+            }
+        }
+    }
     // descriptors on which even an empty call is observable: the wrong access mode (every call
     // fails with EBADF, std issues the syscall for an empty buffer too) and datagram sockets
     // (every write(2), also an empty one, is a message; message boundaries on the read side)
@@ -609,18 +659,21 @@ fn fd_adapters(ctx: &Ctx, thorough: bool) -> Vec<String> {
 
 pub fn run(tier: Tier, replay: Option<String>) -> i32 {
     let ctx = crate::new_ctx("C13", tier, "exploration", &replay);
-    ctx.set_rule("for every adapter the crate provides (&[u8], &mut [u8], Vec<u8>, Cursor<&[u8]>, Cursor<Vec<u8>>, Cursor<&mut [u8]>, File, OwnedFd, BorrowedFd, UnixStream, TcpStream, Stdout): every stream length 0..=20 (plus 4096, 65537 and 70001 with buffers of 4095..65537 bytes, single calls and pairs), every cursor position 0..=22 plus u64::MAX-1 and u64::MAX, every buffer length 0..=20 (single calls, plain and exact form, two buffer misalignments) and every sequence of 2 and 3 (thorough: also 4) consecutive calls over a boundary set of buffer lengths (fd adapters: lengths 0..=9, 2 calls; also read(2)/write(2) that move at most k bytes or are interrupted (EINTR) on every 2nd / 3rd call, descriptors opened in the wrong access mode and datagram sockets, where an empty call is observable: error kinds and the list of datagrams delivered / left are compared) - each executed on the volatile adapter and on its std::io twin with an ordinary buffer; count / error kind, bytes landed, remaining stream / position / vector contents and canaries around the volatile buffer are compared after every call. One case = one call; non-trivial = non-empty buffer; distinct by construction.");
+    ctx.set_rule("for every adapter the crate provides (&[u8], &mut [u8], Vec<u8>, Cursor<&[u8]>, Cursor<Vec<u8>>, Cursor<&mut [u8]>, File, OwnedFd, BorrowedFd, UnixStream, TcpStream, Stdout): every stream length 0..=20 (plus 4096, 65537 and 70001 with buffers of 4095..65537 bytes, single calls and pairs), every cursor position 0..=22 plus u64::MAX-1 and u64::MAX, every buffer length 0..=20 (single calls, plain and exact form, two buffer misalignments) and every sequence of 2 and 3 (thorough: also 4) consecutive calls over a boundary set of buffer lengths (fd adapters: lengths 0..=9, 2 calls; also read(2)/write(2) that move at most k bytes or are interrupted (EINTR) on every 2nd / 3rd call, non-blocking stream sockets that cannot make progress (WouldBlock is reported, a watchdog turns a call that never returns into a finding), descriptors opened in the wrong access mode and datagram sockets, where an empty call is observable: error kinds and the list of datagrams delivered / left are compared) - each executed on the volatile adapter and on its std::io twin with an ordinary buffer; count / error kind, bytes landed, remaining stream / position / vector contents and canaries around the volatile buffer are compared after every call. One case = one call; non-trivial = non-empty buffer; distinct by construction.");
     ctx.assume("stream state after a failed exact call is not compared (std leaves it unspecified)");
     if ctx.replay_of.is_some() {
         println!("replay: deterministic enumeration; re-running it");
     }
     let thorough = tier.thorough();
+    // a call that never returns (a retry loop that cannot make progress) is reported, not waited for
+    let watch = crate::crash::watchdog(30);
     let ne = std::thread::scope(|s| {
         let ctx = &ctx;
         let h = s.spawn(move || fd_adapters(ctx, thorough));
         in_memory(ctx, thorough);
         h.join().unwrap()
     });
+    watch.store(true, std::sync::atomic::Ordering::Relaxed);
     ctx.extra("adapters_not_exercised", json!(ne));
     ctx.sample(json!({"adapter": "Cursor<&[u8]>", "stream_len": 5, "position": "u64::MAX", "calls": "[read_volatile(len 3)]", "expected": "Ok(0), position unchanged, buffer untouched - as std"}));
     ctx.sample(json!({"adapter": "&mut [u8]", "stream_len": 4, "calls": "[write_all_volatile(len 9)]", "expected": "WriteZero, as std's write_all"}));
